@@ -118,6 +118,10 @@ class Tracer:
             if not mutating:
                 return None
             self.armed = True
+            ca = self.plan.get("chmod_at_arm")
+            if ca:
+                # "in another terminal": the owner changes the mode right before the replacement's first call
+                self.real["chmod"](ca[0], ca[1])
         i = self.idx
         self.idx += 1
         self.emit(dict(i=i, op=op, **desc))
@@ -395,6 +399,11 @@ def _child_main(entry, root, wfd, plan, rfd, prepare):
             prepare(os.getpid())
         T = Tracer(root, wfd, plan, rfd)
         T.install()
+        if plan.get("fsize"):
+            # a real kernel-level limit: writes beyond it are cut short, then fail with EFBIG (disk full / quota)
+            import resource
+            signal.signal(signal.SIGXFSZ, signal.SIG_IGN)
+            resource.setrlimit(resource.RLIMIT_FSIZE, (plan["fsize"], resource.getrlimit(resource.RLIMIT_FSIZE)[1]))
         try:
             entry()
             out = "returned"
@@ -482,6 +491,21 @@ def snapshot(root, names=None):
 
 def snap_one(root, name):
     return snapshot(root, {name}).get(name)
+
+
+def read_follow(path):
+    """what a reader of `path` gets (symlinks followed): {len, sha, mode, gid} or None"""
+    try:
+        with open(path, "rb") as f:
+            st = os.fstat(f.fileno())
+            b = f.read()
+    except FileNotFoundError:
+        return None
+    except OSError as e:
+        return dict(kind="unreadable", err=errname(e))
+    if not _stat.S_ISREG(st.st_mode):
+        return dict(kind="notregular", mode="%06o" % st.st_mode)
+    return dict(len=len(b), sha=sha(b), mode="%04o" % _stat.S_IMODE(st.st_mode), gid=st.st_gid)
 
 
 def _spawn(entry, root, plan, sched, prepare):
